@@ -13,7 +13,7 @@ REPO = os.environ.get("VERIF_REPO", "/repo")
 GUARD = "--cfg varlink_rust_verif"
 
 RUST_ENGINE = {"C08", "C09", "C01", "C02", "C03", "C04", "C05", "C06", "C07", "C10", "C11", "C12", "C13", "C14", "C15", "C17"}
-NEEDS_REPO_BINS = {"C10": ["varlink-cli"], "C09": ["varlink_generator"]}
+NEEDS_REPO_BINS = {"C10": ["varlink-cli"], "C09": ["varlink_generator"], "C02": ["ping"]}
 PY_ENGINE = {"C16": "c16", "C18": "c18", "C19": "c19", "C20": "c20"}
 
 
@@ -145,7 +145,7 @@ def dispatch(pid, tier, replay):
         if replay:
             cmd += ["--replay", replay]
         env = base_env()
-        if pid in NEEDS_REPO_BINS and not replay:
+        if pid in NEEDS_REPO_BINS and (not replay or pid == "C02"):
             d = build_repo_bins("debug", NEEDS_REPO_BINS[pid])
             if d is None:
                 print("INCONCLUSIVE property=%s reason=repository binaries failed to build" % pid)
